@@ -102,6 +102,8 @@ def run_mut_jobs(chk, jobs):
             verdict = chk.candidate(tag, body, '%s: input form %s: %s' % (j['prop'], fname, msg[:300]), model=fname)
             chk.query(tag, 'counterexample:' + verdict, wall, model=fname, message=msg[:200])
             chk.samples.append({'form': fname, 'what': msg[:200], 'replay': verdict})
+            if verdict == 'spurious':
+                chk.fault('non-reproducing concrete failure for %s' % tag)
         for c in res['cex']:
             key = (c['what'][:60], c['doc'])
             seen_what[key] = seen_what.get(key, 0) + 1
@@ -124,6 +126,78 @@ def run_mut_jobs(chk, jobs):
     return results
 
 
+PROBE_LIMIT_S = 20
+
+
+def termination_texts():
+    """malformed inputs of 60-400 characters: a literal that fails to close after a long run of ordinary characters, deep nesting,
+    long separators.  Parsing each must end (with grids or an exception) well within PROBE_LIMIT_S seconds."""
+    run = 'abcdefghij' * 6
+    bad = [('unterminated string', '"' + run), ('illegal escape at the end', '"' + run + '\\q"'), ('raw control character at the end', '"' + run + '\x01"'),
+           ('unterminated uri', '`http://' + run), ('uri with illegal escape', '`' + run + '\\q`'), ('ref with unterminated display', '@abc "' + run),
+           ('xstr with unterminated payload', 'Span("' + run), ('blanks then junk', '"' + ' ' * 80 + '\x02'), ('escapes then unterminated', '"' + '\\n' * 40),
+           ('unicode escapes then bad', '"' + '\\u00e9' * 20 + '\\u00zz"'), ('deep lists', '[' * 40), ('deep lists closed wrongly', '[' * 30 + '}' * 30),
+           ('deep dicts', '{a:' * 30), ('many commas', '[' + ',' * 200), ('long digits then junk', '1' * 200 + '_x!'), ('long exponent', '1e' + '9' * 200 + 'x"'),
+           ('nested grids', '<<' * 20), ('long tag name then junk', 'a' * 300 + '!')]
+    out = []
+    for name, t in bad:
+        out.append((name + ' (scalar)', 'scalar', t))
+        out.append((name + ' (cell)', 'grid', 'ver:"3.0"\na,b\n1,' + t + '\n2,3\n'))
+    out.append(('long unterminated string in metadata', 'grid', 'ver:"3.0" dis:"' + run + '\na\n1\n'))
+    out.append(('long unterminated version', 'grid', 'ver:"3.0' + run + '\na\n1\n'))
+    return out
+
+
+PROBE_CODE = ('''import sys, io, contextlib
+sys.path.insert(0, %r)
+with contextlib.redirect_stdout(io.StringIO()):
+    import hszinc
+kind, text = %r, %r
+try:
+    with contextlib.redirect_stdout(io.StringIO()):
+        if kind == 'scalar':
+            hszinc.parse_scalar(text, mode=hszinc.MODE_ZINC, version='3.0')
+        else:
+            hszinc.parse(text, mode=hszinc.MODE_ZINC, single=False)
+    print('ENDED ok')
+except ValueError as e:
+    print('ENDED ValueError')
+except Exception as e:
+    print('ENDED other %%s' %% type(e).__name__)
+''')
+
+
+def probe(kind, text, limit=PROBE_LIMIT_S):
+    try:
+        p = subprocess.run([sys.executable, '-c', PROBE_CODE % (common.REPO, kind, text)], capture_output=True, text=True, timeout=limit)
+    except subprocess.TimeoutExpired:
+        return 'parsing did not end within %d s (input of %d characters)' % (limit, len(text))
+    if 'ENDED other' in p.stdout:
+        return 'raised ' + p.stdout.split('ENDED other')[1].strip()
+    if 'ENDED' not in p.stdout:
+        return 'the parser process died: %s' % p.stderr[-120:]
+    return None
+
+
+def termination_probes(chk):
+    texts = termination_texts()
+    t0 = time.time()
+    with ThreadPoolExecutor(max_workers=common.NCPU) as ex:
+        res = list(ex.map(lambda x: probe(x[1], x[2]), texts))
+    bad = [(n, k, t, r) for (n, k, t), r in zip(texts, res) if r is not None]
+    chk.n_paths += len(texts)
+    chk.validated += len(texts)
+    if not bad:
+        chk.query('termination-probes', 'holds(concrete)', time.time() - t0, texts=len(texts))
+        return
+    for n, k, t, r in bad[:2]:
+        body = ('sys.path.insert(0, %r)\nfrom vf.props import c09\nmsg = c09.probe(%r, %r)\n'
+                'if msg is not None:\n    VIOLATED(%r + msg)\nHOLDS()\n') % (common.VERIF, k, t, n + ': ')
+        v = chk.candidate('termination-' + n.replace(' ', '_')[:40], body, 'C09 termination: %s: %s' % (n, r), model=t[:80])
+        chk.query('termination-probes', 'counterexample:' + v, time.time() - t0, message=('%s: %s' % (n, r))[:200])
+        chk.samples.append({'probe': n, 'what': r, 'replay': v})
+
+
 def kf_key_for(c):
     return None
 
@@ -139,11 +213,15 @@ def run(chk):
     chk.assumptions = ['a single mutated position per grid document; adjacent pairs on scalars in the thorough tier only (other two-position interactions outside the claim)',
                        'over-acceptance is reported only when the independent reference rejects for a structural reason the property names: ' + ', '.join(mutworker.STRUCTURAL),
                        '(line, col) == (0, 0) is the class\'s documented "unknown position" and counts as within the text',
-                       'termination: every exploration ran to completion within its time budget (the work list emptied)',
+                       'termination: every exploration ran to completion within its time budget (the work list emptied); plus %d concrete malformed texts of 60-400 characters (unclosed literals after long runs, deep nesting, long separators) each parsed in its own process under a %d s limit' % (len(termination_texts()), PROBE_LIMIT_S),
                        'C-level conversions reached with a symbolic character (float, strptime, iso8601, fromhex, b64decode) are executed after exhaustive forking over the character\'s feasible values (<=700), see concretised_calls']
     chk.trusted = ['symx engine', 'vf/spec/zinc_ref.py', 'z3']
     for f in ('hszinc/zincparser.py', 'hszinc/parser.py', 'hszinc/version.py', 'hszinc/grid.py', 'hszinc/datatypes.py'):
         chk.note_source(f)
+    if not chk.only or 'termination' in chk.only:
+        termination_probes(chk)       # first: a reader that does not terminate would also stall the symbolic runs below
+        if chk.violations:
+            return chk.finish(rule='termination probes failed; the symbolic runs were not started', exhaustive=False)
     run_mut_jobs(chk, jobs)
     return chk.finish(rule='one exhaustive symbolic exploration per (document, position, replace|insert): the real parse()/parse_scalar() and the reference reader run on the '
                            'text with one symbolic character; every path is classified (grids / ZincParseException with position inside the text / other exception / '
